@@ -459,7 +459,10 @@ static void run_values(Case &c)
     {
         int v = 1 + ((vfirst + vv) & 1);
         std::string tag = vfmt("v%d", v);
-        x->version = (uint16_t)v;
+        // the value's own version tag is a member like any other (0 = never set, 1 / 2 = where it was loaded from): the format that is
+        // written is the one the caller asks for
+        x->version = (uint16_t)(r.chance(0.5) ? v : (int)r.below(3));
+        cover(vfmt("values|own-tag%u|saved-as-v%d", x->version, v));
         size_t size = 0;
         API("WOPN_CalculateBankFileSize", size = WOPN_CalculateBankFileSize(x, (uint16_t)v));
         Bytes img = save_checked(c, x, (unsigned)v, tag);
@@ -586,7 +589,7 @@ static void run_bytes(Case &c)
         unsigned m = (unsigned)r.range(1, 2), p = (unsigned)r.range(1, 2); ValueInfo vi;
         WOPNFile *x = gen_value(r, m, p, vi);
         if(!x) { c.inconclusive = true; return; }
-        int v = r.range(1, 2); x->version = (uint16_t)v;
+        int v = r.range(1, 2); x->version = (uint16_t)(r.chance(0.5) ? v : (int)r.below(3));
         size_t size = WOPN_CalculateBankFileSize(x, (uint16_t)v);
         Block e(size, 0);
         int rc = -1; API("WOPN_SaveBankToMem", rc = WOPN_SaveBankToMem(x, e.p, size, (uint16_t)v, 0));
@@ -754,7 +757,7 @@ static void run_inst(Case &c)
         for(int v = 1; v <= 2; v++)
         {
             std::string tag = vfmt("v%d", v);
-            x.f->version = (uint16_t)v;
+            x.f->version = (uint16_t)(r.chance(0.5) ? v : (int)r.below(3));
             size_t size = 0; API("WOPN_CalculateInstFileSize", size = WOPN_CalculateInstFileSize(x.f, (uint16_t)v));
             Bytes img = save_inst_checked(c, x.f, (unsigned)v, tag);
             if(img.empty()) continue;
